@@ -120,7 +120,12 @@ func main() {
 				samples = append(samples, s)
 			}
 		}
+		dedup := map[string]bool{}
 		for _, f := range r.Findings {
+			if dedup[f.Key()+f.Msg] {
+				continue
+			}
+			dedup[f.Key()+f.Msg] = true
 			isKnown := false
 			for _, k := range known {
 				if k.Prop == pd.ID && k.Rule == f.Rule && k.Construct == f.Construct && !f.Undecided {
